@@ -436,11 +436,25 @@ def main(argv):
                 inp = outdir + "_in.json"
                 json.dump(hs, open(inp, "w"))
                 rargs = [inp if a == "@" else a for a in rargs]
-            rok, rout = run_harness(binpath, rargs, outdir, timeout=h.get("timeout", 1500))
-            if not rok:
-                problems.append(("harness-run", "harness %s %s failed:\n%s" % (h["cmd"], rname, rout[-2500:]), None))
-                continue
-            meta, verdicts, errors = evaluate_dir(outdir)
+            cache_file = None
+            if h.get("shared") and rname == "gen" and not os.environ.get("VERIF_NO_CACHE"):
+                # several properties are decided from one run of this harness: reuse
+                # the verdicts computed for the same tree, sources, seed and tier
+                key = hashlib.sha1(json.dumps([h["cmd"], tree_id(), dir_hash([os.path.join(HARNESS, "cmd", h["cmd"]), os.path.join(HARNESS, "internal")] + [os.path.join(COQ, d) for d in area_dirs]), rargs, os.path.realpath(REPO)]).encode()).hexdigest()[:20]
+                cache_file = os.path.join(BUILD, "cache", key + ".json")
+            if cache_file and os.path.exists(cache_file):
+                cached = json.load(open(cache_file))
+                meta, verdicts, errors = cached["meta"], cached["verdicts"], cached["errors"]
+                log.append("reused shared run " + cache_file)
+            else:
+                rok, rout = run_harness(binpath, rargs, outdir, timeout=h.get("timeout", 1500))
+                if not rok:
+                    problems.append(("harness-run", "harness %s %s failed:\n%s" % (h["cmd"], rname, rout[-2500:]), None))
+                    continue
+                meta, verdicts, errors = evaluate_dir(outdir)
+                if cache_file and not errors:
+                    os.makedirs(os.path.dirname(cache_file), exist_ok=True)
+                    json.dump({"meta": meta, "verdicts": verdicts, "errors": errors}, open(cache_file, "w"))
             for e in errors:
                 problems.append(("case-eval", e, None))
             for e in meta.get("exec_errors") or []:
@@ -452,7 +466,8 @@ def main(argv):
             coverage["harness"].append({
                 "cmd": h["cmd"], "run": rname, "cases": meta["cases"], "events": meta["events"],
                 "distinct_nontrivial": meta["distinct_nontrivial"], "op_histogram": meta["op_histogram"],
-                "outcome_histogram": meta["outcome_histogram"], "extra_max": meta["extra_max"], "rule": meta["rule"]})
+                "outcome_histogram": meta["outcome_histogram"], "extra_max": meta["extra_max"], "rule": meta["rule"],
+                "skipped": meta.get("skipped", 0)})
             kinds = cfg.get("violation_kinds")  # None = every kind belongs to this property
             for v in verdicts:
                 if v["v"] == "violation":
